@@ -561,6 +561,10 @@ impl Connect {
             // The reserved flag MUST be 0 [MQTT-3.1.2-3]; Will QoS 3 is malformed [MQTT-3.1.2-12]
             return Err(MqttError::MalformedPacket);
         }
+        if connect_flags & 0b0000_0100 == 0 && connect_flags & 0b0011_1000 != 0 {
+            // Without the Will Flag, Will QoS and Will Retain MUST be 0 [MQTT-3.1.2-11, 3.1.2-13]
+            return Err(MqttError::MalformedPacket);
+        }
         let connect_flags_buf = [connect_flags];
         cursor += 1;
 
